@@ -1,5 +1,6 @@
 import Tftp.Lemmas.SenderStep
 import Tftp.Model.Receiver
+import Tftp.Lemmas.NetTotal
 /-!
 # C07 — Termination: transfers end at the final block, on ERROR, or after bounded retry
 -/
@@ -212,5 +213,23 @@ theorem c07_receiver_bounded_silence (c : RCfg) :
           unfold rStep; simp [hrun, heq]
         rw [hr] at hs; simp at hs
       exact ih _ hr (by rw [hre]; omega) (by rw [hre]; omega)
+
+end Tftp
+
+namespace Tftp
+
+/-- **no schedule makes a transfer run for ever**: in the closed loop of the two models, for every file, block
+size, window size and for every schedule of lost and duplicated datagrams (unbounded), there is a point at which
+both sides have ended (neither is running any more) -/
+theorem c07_closed_loop_always_ends (sc : SCfg) (rc : RCfg) (hb : 0 < sc.b) (hw1 : 1 ≤ sc.w) (hw : sc.w < 65536)
+    (hrep : sc.rep = 1) (ht : 0 < sc.timeout) (hrb : rc.b = sc.b) (hrw : rc.w = sc.w) (hrrep : rc.rep = 1)
+    (fl : Faults) (f : Bytes) :
+    ∃ fuel,
+      senderRunning (netRun sc rc fl fuel (netInit sc rc fl f)).s = false ∧
+      receiverRunning (netRun sc rc fl fuel (netInit sc rc fl f)).r = false := by
+  obtain ⟨fuel, h⟩ := closed_loop_total sc rc ⟨⟨hb, hw1, hw, hrep, hrb, hrw, hrrep⟩, ht⟩ fl f
+  refine ⟨fuel, ?_, ?_⟩
+  · rcases h with ⟨_, _, h3 | ⟨h3, _⟩⟩ | ⟨_, _, h3, _⟩ <;> simp [senderRunning, h3]
+  · rcases h with ⟨h1, _, _⟩ | ⟨h1, _, _, _⟩ <;> simp [receiverRunning, h1]
 
 end Tftp
